@@ -34,14 +34,19 @@
    * A follower with a pending request_snapshot does not acknowledge heartbeats at all (it answers
      with a rejecting MsgAppendResponse): see the second disjunct of C08_heartbeat_echoes_context.
      This can delay, never wrongly release, a read.
-   * Restart: the model has no Raft::new, so "pending reads are empty after a restart" is not
-     stated (ReadOnly is volatile in the Rust; every transition that changes term or role goes
-     through reset, C08_reset_drops_reads).
-   * RoInv (the ReadOnly representation invariant) is proved PRESERVED by every API function of
-     the Raft and RawNode models (C08_raft_api_gx / C08_rawnode_api_gx) and to hold for ro_new;
-     since there is no constructor in the model it is not proved "established at construction".
-     None of the mechanism theorems 2-8 assumes it (only C08_readindex_served_prefix and the
-     advance clauses of read_only_spec do).
+   * RoInv (the ReadOnly representation invariant) is proved ESTABLISHED at construction
+     (C08_raft_new_no_reads / C08_rn_new_no_reads: a fresh or restarted node has no pending read
+     and no read state) and PRESERVED by every API function of the Raft and RawNode models
+     (C08_raft_api_gx / C08_rawnode_api_gx).  None of the mechanism theorems 2-8 assumes it (only
+     C08_readindex_served_prefix and the advance clauses of read_only_spec do).
+   * The single-voter shortcut (item 7) is sound only if the lone voter is the node itself.  The
+     real code (fix 6a9ae91, found by the monitor: a leader removed or demoted by a membership
+     change whose configuration keeps ONE voter, another node, answered locally with a possibly
+     stale commit index) now tests `is_singleton() && self.promotable`, and so does the model
+     (C08_singleton_conf_def).  That promotable = "self is a voter of the current configuration"
+     is NOT proved here: it is established by post_conf_change, which every configuration change
+     (apply_conf_change, restore) and raft_new run - C09_promotable_iff_voter and its corollaries
+     in Props/C09.v.  The guard proved here is C08_nonpromotable_safe_never_answers_at_once.
 
    PROVED (every statement holds for EVERY state r / node n and EVERY message; the only
    hypotheses are those written in each theorem):
@@ -52,7 +57,9 @@
       about any Ok result of advance that need no invariant (C08_ro_advance_sub).
    2. C08_readindex_requires_own_term_commit.
    3. C08_readindex_safe_records_commit (exact post-state: only read_only and msgs change),
-      C08_recorded_entry, C08_hb_list_shape, C08_hb_list_dests, C08_recorded_index_stable.
+      C08_recorded_entry, C08_hb_list_shape, C08_hb_list_dests, C08_recorded_index_stable;
+      C08_nonpromotable_safe_never_answers_at_once (regression guard for fix 6a9ae91);
+      C08_raft_new_no_reads, C08_rn_new_no_reads (construction).
    4. C08_readindex_served_needs_quorum, C08_readindex_served_recorded,
       C08_readindex_served_prefix; C08_step_commit_monotone for the WHOLE of step (every role,
       every message), C08_raft_api_gx / C08_rawnode_api_gx: no API function of the Raft or RawNode
@@ -60,7 +67,7 @@
    5. C08_readindex_routing, C08_follower_readindex_forward, C08_follower_readindex_resp, and the
       complete account C08_step_read_origin: through Raft::step a read state appears only
       (a) on a follower that receives MsgReadIndexResp, (b) on a leader answering at once a
-      request issued on itself (single voter or LeaseBased), (c) on a Safe leader releasing, on a
+      request issued on itself (it is the lone voter, or LeaseBased), (c) on a Safe leader releasing, on a
       quorum of acks, requests that were issued on itself; a MsgReadIndexResp is queued only by a
       leader, addressed to the m_from of the recorded request; C08_step_other_fx: every other
       message type leaves read states alone.  C08_rn_ready_read_states: Ready hands out exactly
@@ -204,7 +211,7 @@ Proof. vm_compute. repeat split. Qed.
 
 Theorem C08_singleton_conf_def :
   forall r, singleton_conf r = match incoming (conf_of r), outgoing (conf_of r) with
-                               | [_], [] => true
+                               | [_], [] => r_promotable r
                                | _, _ => false
                                end.
 Proof. exact singleton_conf_def_pin. Qed.
@@ -315,6 +322,68 @@ Proof.
   split; [vm_compute; reflexivity|]. split; [vm_compute; reflexivity|].
   eexists. split; [vm_compute; reflexivity|]. vm_compute. repeat split.
 Qed.
+
+(* regression guard for fix 6a9ae91: a Safe leader that is not promotable (not a voter: removed
+   or demoted by a membership change) never answers a MsgReadIndex at once, whatever its
+   configuration - in particular when exactly one voter, another node, remains.  No read state,
+   no MsgReadIndexResp: the request is ignored (no own-term commit) or recorded + heartbeats *)
+Theorem C08_nonpromotable_safe_never_answers_at_once :
+  forall r m r' c,
+  r_state r = Leader -> r_promotable r = false -> ro_option (r_read_only r) = 0 ->
+  m_type m = MsgReadIndex -> m_term m <= r_term r ->
+  step r m = Ok (r', c) ->
+  c = E_OK /\ r_read_states r' = r_read_states r /\ rir (r_msgs r') = rir (r_msgs r) /\
+  (r' = r \/
+   (commit_to_current_term r = Ok true /\ exists e rest, m_entries m = e :: rest /\
+      r' = r <| r_read_only := ro_after_request r m (e_data e) |>
+             <| r_msgs := r_msgs r ++ hb_list r (Some (e_data e)) (pids (t_progress (r_prs r))) |>)).
+Proof. exact nonpromotable_safe_never_answers_at_once. Qed.
+Print Assumptions C08_nonpromotable_safe_never_answers_at_once.
+
+Theorem C08_nonpromotable_safe_never_answers_at_once_leader :
+  forall r m r' c,
+  r_promotable r = false -> ro_option (r_read_only r) = 0 -> m_type m = MsgReadIndex ->
+  step_leader r m = Ok (r', c) ->
+  c = E_OK /\ r_read_states r' = r_read_states r /\ rir (r_msgs r') = rir (r_msgs r) /\
+  ((commit_to_current_term r = Ok false /\ r' = r) \/
+   (commit_to_current_term r = Ok true /\ exists e rest, m_entries m = e :: rest /\
+      r' = r <| r_read_only := ro_after_request r m (e_data e) |>
+             <| r_msgs := r_msgs r ++ hb_list r (Some (e_data e)) (pids (t_progress (r_prs r))) |>)).
+Proof. exact nonpromotable_safe_never_answers_at_once_leader. Qed.
+Print Assumptions C08_nonpromotable_safe_never_answers_at_once_leader.
+
+Example C08_removed_leader_example :
+  (* voters = [1], self = 2 is not a voter, still leader of term 2 with an own-term commit *)
+  incoming (conf_of C08Samples.s_removed) = [1] /\ outgoing (conf_of C08Samples.s_removed) = [] /\
+  r_id C08Samples.s_removed = 2 /\ r_promotable C08Samples.s_removed = false /\
+  commit_to_current_term C08Samples.s_removed = Ok true /\
+  singleton_conf C08Samples.s_removed = false /\
+  exists r', step C08Samples.s_removed (C08Samples.rd 0 [7]) = Ok (r', E_OK) /\
+    r_read_states r' = [] /\ rir (r_msgs r') = [] /\
+    ro_queue (r_read_only r') = [[7]] /\
+    map (fun x => (m_type x, m_to x, m_context x)) (r_msgs r')
+      = [(MsgHeartbeat, 1, [7]); (MsgHeartbeat, 3, [7])].
+Proof.
+  repeat (split; [vm_compute; reflexivity|]).
+  eexists. split; [vm_compute; reflexivity|]. vm_compute. repeat split.
+Qed.
+
+(* construction: a fresh node has no pending read and no read state, and RoInv holds *)
+Theorem C08_raft_new_no_reads :
+  forall c st sa draws r,
+  raft_new c st sa draws = Ok (inr r) ->
+  r_read_only r = ro_new (c_read_only_option c) /\ RoInv (r_read_only r) /\
+  ro_queue (r_read_only r) = [] /\ ro_pending (r_read_only r) = [] /\ r_read_states r = [].
+Proof. exact raft_new_no_reads. Qed.
+Print Assumptions C08_raft_new_no_reads.
+
+Theorem C08_rn_new_no_reads :
+  forall c st sa draws n,
+  rn_new c st sa draws = Ok (inr n) ->
+  r_read_only (rn_raft n) = ro_new (c_read_only_option c) /\ RoInv (r_read_only (rn_raft n)) /\
+  r_read_states (rn_raft n) = [].
+Proof. exact rn_new_no_reads. Qed.
+Print Assumptions C08_rn_new_no_reads.
 
 (* ================================================================== *)
 (* 4. served only on a quorum; the index is the recorded one; commit index monotone *)
@@ -692,7 +761,7 @@ Proof.
 Qed.
 
 (* ================================================================== *)
-(* 7. contrast: LeaseBased (or a single voter) answers at once *)
+(* 7. contrast: LeaseBased (or the lone voter being this very node) answers at once *)
 
 Theorem C08_lease_based_no_quorum :
   forall r m r' c,
